@@ -572,6 +572,9 @@ func c20Check(sc *Scenario, acc *Acc) (*c20Fail, int) {
 			if o.Kind == "ok" {
 				return &c20Fail{"setup", "a load that should fail succeeds", "", o.Short()}, i
 			}
+			if acc != nil {
+				acc.Fault("failing-load-between-registry-operations", 1)
+			}
 		case op.Kind == "newtemplate":
 			if o.Kind != "ok" {
 				return &c20Fail{"setup", "loading the scenario's tree fails", "", o.Short()}, i
